@@ -67,3 +67,10 @@ Example C05_nonvacuous :
   exists w, snd (serve max cb evs) = Reply true (Some (repeat_byte 109 253)) (Some w) /\
             decode_response_bytes max w = RsOk true (repeat_byte 109 253).
 Proof. split; [apply wbb_wb; vm_compute; reflexivity|]. split; [vm_compute; reflexivity|]. eexists. split; vm_compute; reflexivity. Qed.
+
+(* ---- the model's state space is the code's declared state ----
+   (theories/StateInst.v: package-level variables and struct fields listed by tools/facts on every
+   run; the models keep no state between operations other than these components) *)
+From Whawty Require StateInst.
+Theorem C05_sasl_state_inventory : StateInst.sasl_state_inventory.
+Proof. exact StateInst.sasl_state_inventory_holds. Qed.
